@@ -153,6 +153,27 @@ Theorem c17_reference_latest_write_wins : forall l s v,
 Proof. exact latest_spec. Qed.
 Print Assumptions c17_reference_latest_write_wins.
 
+(* Context.NewPeerSetID with the hash as an arbitrary function [H]: the id is the
+   first 32 bytes of H(service id ++ data); service ids have one length, so the whole
+   service id and every byte of the data enter the hash, and two derivations agree
+   only for the same (service, data) or through a collision of the truncated hash on
+   two different pre-images (the injective constructor SHash of the model). *)
+Theorem c17_ctx_id_injective_modulo_hash : forall (H : list nat -> list nat) s1 d1 s2 d2,
+  length s1 = length s2 ->
+  ctx_id H s1 d1 = ctx_id H s2 d2 ->
+  (s1 = s2 /\ d1 = d2) \/
+  (ctx_preimage s1 d1 <> ctx_preimage s2 d2 /\
+   pad 32 (H (ctx_preimage s1 d1)) = pad 32 (H (ctx_preimage s2 d2))).
+Proof. exact ctx_id_eq_or_collision. Qed.
+Print Assumptions c17_ctx_id_injective_modulo_hash.
+
+Example c17_ctx_preimages_differ :
+  let a := repeat 1 16 in let b := repeat 2 16 in
+  ctx_preimage a (seq 1 32) <> ctx_preimage b (seq 1 32) /\
+  ctx_preimage a (seq 1 32) <> ctx_preimage a (seq 1 33).
+Proof. exact ctx_preimages_differ. Qed.
+Print Assumptions c17_ctx_preimages_differ.
+
 (* REFINEMENT to the reference "map of sets keyed by the peers' KEYS": on every
    history the fixed variant violates no clause of the property ... *)
 Theorem c17_fixed_model_satisfies_property : forall idk ops,
